@@ -720,16 +720,17 @@ def num_until(interp, recv, args):
 
 
 def num_floor(interp, recv, args):
-    return float(math.floor(recv)) if math.isfinite(recv) else recv
+    if not math.isfinite(recv):
+        return recv
+    r = float(math.floor(recv))
+    return math.copysign(0.0, recv) if r == 0.0 else r
 
 
 def num_ceil(interp, recv, args):
     if not math.isfinite(recv):
         return recv
     r = float(math.ceil(recv))
-    if r == 0.0 and recv < 0:
-        return -0.0
-    return r
+    return math.copysign(0.0, recv) if r == 0.0 else r
 
 
 def num_round(interp, recv, args):
